@@ -19,6 +19,25 @@ def run(tier):
     n = 120 if tier == 'quick' else 2500
     jobs = ec.random_jobs(rnd, n, label='dup', dups=2, gen_kw=dict(partial_joins=False, p_sub=0.25, p_items=0.1))
     jobs += ec.catalogue_jobs(policies=('random', 'results_first'), seeds=(1,), dups=2)
+    # a task whose sub-workflow is PAUSED directly (the parent task and its workflow become PAUSED): the start request of
+    # that task is redelivered while it is PAUSED, then the sub-workflow is resumed
+    from harness import gen, engrun
+    for n_items in (None,):
+        for at in range(4, 16):
+            P = gen.Program()
+            P.order = ['t0', 't1']
+            P.tasks = {'t0': {'kind': 'workflow', 'workflow': 'sub1', 'succ': [{'to': 't1'}], 'err': [], 'comp': []},
+                       't1': {'kind': 'action', 'succ': [], 'err': [], 'comp': []}}
+            S = gen.Program()
+            S.name = 'sub1'
+            S.order = ['sub1x0', 'sub1x1']
+            S.tasks = {'sub1x0': {'kind': 'action', 'succ': [{'to': 'sub1x1'}], 'err': [], 'comp': []},
+                       'sub1x1': {'kind': 'action', 'succ': [], 'err': [], 'comp': []}}
+            P.subs['sub1'] = S
+            P.flags = {'sub': True}
+            ops = [dict(at=at, op='pause', target='r/t0#0@0.0'), dict(rel=at % 3, op='dup', method='start_task', task='r/t0#0'),
+                   dict(rel=1, op='dup', method='start_task', task='r/t0#0'), dict(at=10 ** 6, op='resume', target='r/t0#0@0.0')]
+            jobs.append(dict(prog=P, scheduler=('default', 'legacy')[at % 2], policy=engrun.POLICIES[1:][at % 7], seed=at, label='dup_paused', ops=ops))
     from harness.checks import c06_executor
     return ec.run_property(PID, tier, jobs,
                            'generated programs with up to 2 messages (action results, start-task requests, start requests, run-action '
